@@ -193,8 +193,15 @@ func (c *cbLog) waitMark(rv int, bound time.Duration) bool {
 }
 
 // attachMonitor creates a monitor node below publisher node p.
-func (w *world) attachMonitor(p *node) *node {
+func (w *world) attachMonitor(p *node) *node { return w.attachMonitorOpt(p, false) }
+
+// attachMonitorOpt: with blockedInit the handler blocks from its very first
+// callback on (OnInitialize, if the publisher is ready), until cb.unblock().
+func (w *world) attachMonitorOpt(p *node, blockedInit bool) *node {
 	n := &node{kind: "mon", parent: p, filt: -1, cb: newCbLog()}
+	if blockedInit {
+		n.cb.block()
+	}
 	var m kcache.Monitor
 	var err error
 	if w.cfg.typed != "" {
